@@ -1,4 +1,4 @@
-"""C18 -- an interrupted save never leaves an unopenable project (clauses R18.1-R18.6)."""
+"""C18 -- an interrupted save never leaves an unopenable project (clauses R18.1-R18.7)."""
 from __future__ import annotations
 
 import ast
@@ -7,6 +7,7 @@ import importlib
 from typing import List, Optional, Set
 
 from .. import callgraph
+from . import common
 from ..cfg import CFG, handler_names
 from ..core import AnalysisError, call_name, calls_in, dotted, is_self_attr, norm, walk_local
 
@@ -19,7 +20,7 @@ EXPLANATION = (
     "read_data tolerates None before using the value.  R18.3: no other file written by the data-file writer is opened "
     "for reading anywhere.  R18.4: the reader returns its list of loaded objects only under a non-emptiness test, so an "
     "empty/truncated file yields None (what the consumers test for), never [].  R18.5: each handle opened by a data writer receives exactly one serialisation record per save (no dump in a loop, no second dump), "
-    "so a strict prefix of the file is never a complete shorter value.  R18.6: data files are opened for writing with a truncating mode only.  Which version survives a crash is not decided."
+    "so a strict prefix of the file is never a complete shorter value.  R18.6: data files are opened for writing with a truncating mode only.  R18.7: rebuilding changes from the saved history calls no lookup that raises for a missing path.  Which version survives a crash is not decided."
 )
 ASSUMPTIONS = [
     "a strict prefix of a valid pickle stream makes pickle.load raise EOFError or pickle.UnpicklingError (CPython behaviour)",
@@ -268,6 +269,7 @@ def check(ctx, res) -> None:
     _r184(ctx, res)
     _r185(ctx, res, writer_funcs)
     _r186(ctx, res, writes)
+    history_loader_rule(ctx, res, "R18.7")
 
 
 def _load(t: ast.AST) -> ast.AST:
@@ -393,3 +395,33 @@ def _r186(ctx, res, writes) -> None:
                 "beginning of the new record followed by the rest of the old one, which unpickles to garbage or raises something other than "
                 "EOFError/UnpicklingError when the project is opened", function=w.qualname)
     res.floor("R18.6", "data-file write sites", n, 2)
+
+
+def history_loader_rule(ctx, res, rule: str) -> None:
+    """R18.7 (shared with C12): loading the saved history must not depend on what is on disk.  A saved RemoveResource
+    names something that no longer exists, a saved MoveResource something that has moved.  The data-to-change table
+    builds resources with the non-checking constructors; it may not call a lookup that raises for a missing path."""
+    idx = ctx.idx
+    d2c = idx.need_class("rope.base.change.DataToChange")
+    raising = {}
+    for f in idx.functions.values():
+        if f.unit.modname not in ("rope.base.project", "rope.base.resources", "rope.base.libutils"):
+            continue
+        for r in common.explicit_raises(f.node):
+            t = ast.unparse(r.exc) if r.exc is not None else ""
+            if "NotFound" in t:
+                raising.setdefault(f.name, f"{f.qualname} raises {t.split('(')[0]}")
+    if not raising:
+        raise AnalysisError("anchor=project/resources lookups that raise *NotFound* errors not found")
+    n = 0
+    for mname, m in sorted(d2c.methods.items()):
+        if not mname.startswith("make"):
+            continue
+        n += 1
+        bad = [(c, raising[call_name(c)]) for c in calls_in(m.node) if call_name(c) in raising]
+        res.add(rule, f"DataToChange.{mname}|no-disk-lookup", not bad, m.where if not bad else f"{m.unit.rel}:{bad[0][0].lineno}",
+                "resources are rebuilt without looking at the disk" if not bad else
+                f"DataToChange.{mname} calls {ast.unparse(bad[0][0].func)} ({bad[0][1]}): a saved history naturally refers to resources that no longer "
+                "exist (a removed file, a moved module), so asking for the history after reopening the project raises instead of loading",
+                function=m.qualname)
+    res.floor(rule, "data-to-change constructors", n, 5)
